@@ -40,6 +40,12 @@ def whenP {X : Type} (cond : Bool) (p : P X Unit) : P X Unit := if cond then p e
 
 def outOfUnit (t : Rat) : Bool := decide (t ≥ 1) || decide (t ≤ 0)
 
+/-- `midpoint_vertex.is_some_and(|t| (t >= T::one()) | (t <= T::zero()))` -/
+def optOutOfUnit (t : Option Rat) : Bool :=
+  match t with
+  | some t => outOfUnit t
+  | none => false
+
 /-- the interpolated vertex written by the kernels -/
 def placeVal (v1 v2 : Val) (t : Option Rat) : Val := (P2.place v1.p2 v2.p2 t).toVal
 
@@ -76,7 +82,7 @@ def withEnds {α : Type} (v1 v2 : Option Val) (k : Val → Val → P Val α) : P
 
 /-- `insert_vertex_on_edge(cmap, trans, edge_id, (nd1, nd2), midpoint_vertex)` -/
 def insertVertexOnEdge (n : Nat) (c : Map Val) (e nd1 nd2 : Nat) (t : Option Rat) : P Val Unit := do
-  if (match t with | some t => outOfUnit t | none => false) then abort errVertexBound else
+  if optOutOfUnit t then abort errVertexBound else
   let base1 := e
   let base2 ← rB 2 base1
   let bad1 ← nullOrNotFreeNT c nd1
